@@ -75,7 +75,7 @@ ALTS_B = [
 
 			execResult, err := runExecWithRetries(ctx, node, itm)'''),
       why="an item that prep already marked as failed is not handed to exec; its error is its outcome (outside every property's quantifier)"),
-    A("alt-batch-prompt-post-on-cancel", ["C06", "C11", "C09", "C07", "C08"],
+    A("alt-batch-prompt-post-on-cancel", ["C06", "C11", "C09", "C07", "C08", "C20"],
       ("batch.go", '''	pool := NewWorkerPool(concurrency)
 	defer pool.Close()
 
@@ -224,4 +224,159 @@ func (p *semPool) Wait() { p.wg.Wait() }
 
 func runExecWithRetries(ctx context.Context, node Node, item Result) (any, error) {'''),
       why="one goroutine per item admitted through a counting semaphore: the start order is the scheduler's"),
+    # ---- second review round, flows / nodes (A2) ----
+    A("alt-batch-pool-cached-per-node", ["C20", "C04", "C02", "C17", "C19", "C06", "C07", "C08", "C09", "C11"],
+      ("batch.go", '''	pool := NewWorkerPool(concurrency)
+	defer pool.Close()
+''', '''	var pool *WorkerPool
+	if p, ok := cachedPools.Load(node); ok && p.(*cachedPool).size == concurrency {
+		pool = p.(*cachedPool).pool
+	} else {
+		pool = NewWorkerPool(concurrency)
+		cachedPools.Store(node, &cachedPool{pool: pool, size: concurrency})
+	}
+'''),
+      ("batch.go", '''func runExecWithRetries(ctx context.Context, node Node, item Result) (any, error) {''', '''type cachedPool struct {
+	pool *WorkerPool
+	size int
+}
+
+var cachedPools sync.Map
+
+func runExecWithRetries(ctx context.Context, node Node, item Result) (any, error) {'''),
+      why="the worker pool of a batch node is kept for later runs of the same node (goroutines outlive the run; only C12 speaks about pool lifetime)"),
+    A("alt-func-node-threads-prep-result", ["C01", "C02", "C17", "C04", "C18", "C19"],
+      ("flyt.go", '''		result, err := n.prepFunc(ctx, shared)
+		if err != nil {
+			return nil, err
+		}
+		return result.Value(), nil''', '''		result, err := n.prepFunc(ctx, shared)
+		if err != nil {
+			return nil, err
+		}
+		return result, nil'''),
+      ("flyt.go", '''		return n.postFunc(ctx, shared, NewResult(prepResult), exec)''', '''		prep, ok := prepResult.(Result)
+		if !ok {
+			prep = NewResult(prepResult)
+		}
+		return n.postFunc(ctx, shared, prep, exec)'''),
+      ("batch.go", '''	// Convert to []Result
+	var items []Result
+	switch v := prepResult.(type) {''', '''	if r, ok := prepResult.(Result); ok {
+		prepResult = r.Value()
+	}
+	// Convert to []Result
+	var items []Result
+	switch v := prepResult.(type) {'''),
+      why="function-style nodes thread the prep Result through the phases; the fallback function receives that Result (as batch fallbacks do today)"),
+    A("alt-retry-wait-with-jitter", ["C20", "C05", "C02", "C01", "C19", "C07"],
+      ("flyt.go", '''			case <-time.After(wait):
+				// Continue with retry''', '''			case <-time.After(wait + time.Duration(rand.Int63n(int64(wait)/4+1))):
+				// Continue with retry'''),
+      ("flyt.go", '''import (
+''', '''import (
+	"math/rand"
+'''),
+      ("batch.go", '''			case <-time.After(wait):''', '''			case <-time.After(wait + time.Duration(rand.Int63n(int64(wait)/4+1))):'''),
+      ("batch.go", '''import (
+''', '''import (
+	"math/rand"
+'''),
+      why="random jitter on top of the configured wait (\"at least w\"): two runs of one scenario have different timelines"),
+    A("alt-submillisecond-wait-slept", ["C20", "C05"],
+      ("flyt.go", '''		if attempt > 0 && wait > 0 {
+			select {
+			case <-time.After(wait):
+				// Continue with retry''', '''		if attempt > 0 && wait > 0 && wait < time.Millisecond {
+			time.Sleep(wait)
+			if err := ctx.Err(); err != nil {
+				return "", fmt.Errorf("run: context cancelled during wait: %w", err)
+			}
+		} else if attempt > 0 && wait > 0 {
+			select {
+			case <-time.After(wait):
+				// Continue with retry'''),
+      why="waits below a millisecond are slept out and the context is checked afterwards (cancellation of short waits is outside C20's quantifier)"),
+    A("alt-polling-wait", ["C20"],
+      ("flyt.go", '''			select {
+			case <-time.After(wait):
+				// Continue with retry
+			case <-ctx.Done():
+				return "", fmt.Errorf("run: context cancelled during wait: %w", ctx.Err())
+			}''', '''			nap := 5 * time.Millisecond
+			if wait > time.Second {
+				nap = wait / 200
+			}
+			for slept := time.Duration(0); slept < wait; slept += nap {
+				time.Sleep(nap)
+				if ctx.Err() != nil {
+					return "", fmt.Errorf("run: context cancelled during wait: %w", ctx.Err())
+				}
+			}'''),
+      why="the wait is a loop of short naps polling the context (returns within one nap of any cancellation)"),
+    A("alt-batch-rejects-undocumented-prep-forms", ["C02", "C17", "C04", "C06", "C07", "C18", "C19", "C20", "C09", "C11", "C08"],
+      ("batch.go", '''	default:
+		// Try to convert using ToSlice
+		slice := ToSlice(prepResult)
+		items = make([]Result, len(slice))
+		for i, item := range slice {
+			items[i] = NewResult(item)
+		}
+	}''', '''	case nil:
+	default:
+		return "", fmt.Errorf("run: batch prep must return []Result or []any, got %T", prepResult)
+	}'''),
+      why="only []Result and []any are accepted from a batch prep"),
+    A("alt-any-post-gets-error-of-error-result", ["C17", "C01", "C04"],
+      ("flyt.go", '''			n.postFunc = func(ctx context.Context, shared *SharedStore, prepResult, execResult Result) (Action, error) {
+				return fn(ctx, shared, prepResult.Value(), execResult.Value())
+			}''', '''			n.postFunc = func(ctx context.Context, shared *SharedStore, prepResult, execResult Result) (Action, error) {
+				if execResult.IsError() {
+					return fn(ctx, shared, prepResult.Value(), execResult.Error())
+				}
+				return fn(ctx, shared, prepResult.Value(), execResult.Value())
+			}'''),
+      ("builder.go", '''	b.postFunc = func(ctx context.Context, shared *SharedStore, prepResult, execResult Result) (Action, error) {
+		return fn(ctx, shared, prepResult.Value(), execResult.Value())
+	}''', '''	b.postFunc = func(ctx context.Context, shared *SharedStore, prepResult, execResult Result) (Action, error) {
+		if execResult.IsError() {
+			return fn(ctx, shared, prepResult.Value(), execResult.Error())
+		}
+		return fn(ctx, shared, prepResult.Value(), execResult.Value())
+	}'''),
+      why="an Any-style post function receives the error of an error Result instead of nil"),
+    A("alt-batch-without-items-is-an-error", ["C19", "C04", "C18", "C06"],
+      ("batch.go", '''	// Convert to []Result
+	var items []Result
+	switch v := prepResult.(type) {''', '''	if prepResult == nil {
+		return "", fmt.Errorf("run: batch node produced no item list")
+	}
+	// Convert to []Result
+	var items []Result
+	switch v := prepResult.(type) {'''),
+      why="a batch node whose prep yields nil (e.g. no prep function) is rejected"),
+    A("alt-nested-flow-scoped-store", ["C01", "C03", "C04", "C05", "C18"],
+      ("flyt.go", '''		action, err := Run(ctx, current, shared)
+		if err != nil {
+			return nil, err
+		}
+
+		lastAction = action''', '''		var action Action
+		var err error
+		if sub, isFlow := current.(*Flow); isFlow {
+			scoped := NewSharedStore()
+			scoped.Merge(shared.GetAll())
+			action, err = Run(ctx, sub, scoped)
+			if err == nil {
+				shared.Merge(scoped.GetAll())
+			}
+		} else {
+			action, err = Run(ctx, current, shared)
+		}
+		if err != nil {
+			return nil, err
+		}
+
+		lastAction = action'''),
+      why="violates C10 only (a nested flow runs on a scoped store, merged back on success); the other flow checks must not report it as theirs"),
 ]
